@@ -804,7 +804,8 @@ class Session:
             if (a is MISSING) != (b is MISSING) or (a is not MISSING and not jeq(a, b)):
                 self.v("replica/mismatch-value:" + when, "fetch %r on %s path %r: replica %r model %r" % (f.fid, f.conn.name, k, b, a))
                 return False
-        self.sig("replica", when, min(len(exp), 4), f.rule is None, f.conn.transport)
+        self.sig("replica", when, min(len(exp), 4), None if f.rule is None else tuple(sorted(k for k, _ in f.rule.ms)) + (("ci",) if f.rule.ci else ()),
+                 f.conn.transport, min(len(self.elements), 6))
         return True
 
     def _check_get(self, p, result):
